@@ -62,8 +62,8 @@ T = {
          "C17_request_content_length (any accepted request under any delivery schedule: Content-Length value is digits only), C17_status_code, "
          "C17_chunk_size, C17_response_content_length, and C17_std_parser_extra (what the pre-fix std parsers accepted in addition: exactly a leading '+'). "
          "Correspondence: exhaustive short strings over a 16-symbol alphabet plus every single byte value in each of the fields, inserted non-digits, repeated Content-Length under deliveries.", ""),
- "C18": ("Theorems over header lists: C18_lookups_ignore_case, C18_response_framing_ignores_case + C18_resp_headers_uses_framing, C18_request_framing_ignores_case, C18_decode_body_ignores_case, C18_decode_text_ignores_case, C18_dechunk_rewrite_ignores_case. Theorems over message bytes: C18_header_block_parser_ignores_case (parsing blocks equal up to ASCII case gives the same answer, the same consumed count and lists equal up to case), C18_response_bytes and C18_request_bytes (any change of letter case inside the header block of a message leaves verdict, consumed count, start-line fields, body, trailing data and parser phase unchanged; stored headers equal up to case, also after the de-chunking rewrite).",
-         "Letter case inside a chunked trailer section is covered by the run and by the list-level theorems (trailer framing filter), not by the byte-level theorem. encoding_rs's label lookup being case-insensitive is a hypothesis."),
+ "C18": ("Theorems over header lists: C18_lookups_ignore_case, C18_response_framing_ignores_case + C18_resp_headers_uses_framing, C18_request_framing_ignores_case, C18_decode_body_ignores_case, C18_decode_text_ignores_case, C18_dechunk_rewrite_ignores_case. Theorems over message bytes: C18_header_block_parser_ignores_case (parsing blocks equal up to ASCII case gives the same answer, the same consumed count and lists equal up to case), C18_response_bytes and C18_request_bytes (any change of letter case inside the header block of a message leaves verdict, consumed count, start-line fields, body, trailing data and parser phase unchanged; stored headers equal up to case, also after the de-chunking rewrite), C18_chunked_response_bytes (for an accepted chunked response the letter case of the trailer section may change as well: same boundary, body and fields, headers equal up to case).",
+         "encoding_rs's label lookup being case-insensitive is a hypothesis."),
 }
 
 DEFAULT_TEXT = "see DESIGN.md section 6"
